@@ -94,10 +94,17 @@ def body(ctx, case):
         ctx.event("eos")
     if start is not None:
         ctx.event("start_state")
+    given = copy.deepcopy(init_h)
     with np.errstate(all="ignore"):
-        res = ctx.must("decoder_raises", dec, M.copy(), model_eos=eos, return_h=True,
-                       init_h=copy.deepcopy(init_h))
+        res = ctx.must("decoder_raises", dec, M.copy(), model_eos=eos, return_h=True, init_h=given)
     boh, h_ret = res
+    # the start state is the caller's object (the state carried over from the previous line): decoding must not alter it
+    if init_h is not None:
+        if lm_type == "hash":
+            same = repr(getattr(given, "p", None)) == repr(getattr(init_h, "p", None))
+        else:
+            same = states_equal(lm_type, given, init_h)
+        ctx.check(same, "decoder_alters_the_given_start_state", desc)
     hyps = [(h.transcript, float(h.vis_sc), float(h.lm_sc)) for h in boh]
     ctx.check(len({t for t, _, _ in hyps}) == len(hyps), "duplicate_transcripts", lambda: "%r; " % (hyps,) + desc())
     # 1. LM bookkeeping
